@@ -252,7 +252,7 @@ func cmdCheck(args []string) {
 				if mode == "" {
 					mode = "native"
 				}
-				if v.Kind != "assert" && mode == "native" && v.Kind != "panic" {
+				if v.Kind != "assert" && mode == "native" {
 					mode = "engine"
 				}
 				ok, out := false, ""
